@@ -342,6 +342,14 @@ Example C10_check_example_borderline :
   let line := [10; 0; 1; 2; 0x3ff0000000000000; 0x4000000000000000; 2; 0x3ff0000000000000; 0x4000000000000000; 2; 0x3fd5555555555555; 0; 0x4000000000000000; 0x3fe0000000000000; 0; 0x4000000000000000; 0; 0x3ff0000000000000; 1]%Z in
   match check_C10 line with code :: tag :: _ => code = 1%Z /\ Z.land tag 512 = 512%Z | _ => False end.
 Proof. vm_compute. split; reflexivity. Qed.
+(* weighted {1,2,3,4}, every weight fl(0.3), one query q = 0.6 (not at a tie: returns 3, code 0); the quartile
+   targets 3W/4 and W/4 coincide EXACTLY with cumulative weights of the model (3 fl(0.3), fl(0.3)) but not of the float
+   scan (0.3+0.3+0.3 rounds down): the code returns IQR = 1 where the exact scan gives 4 - 2 = 2.  Accepted as
+   BORDERLINE through the IQR alone: verdict code 1, tag bit 512 (real line: Go output on /repo) *)
+Example C10_check_example_borderline_iqr :
+  let line := [10; 0; 1; 4; 0x3ff0000000000000; 0x4000000000000000; 0x4008000000000000; 0x4010000000000000; 4; 0x3fd3333333333333; 0x3fd3333333333333; 0x3fd3333333333333; 0x3fd3333333333333; 1; 0x3fe3333333333333; 0; 0x4008000000000000; 0; 0x3ff0000000000000; 1]%Z in
+  check_C10 line = verdict 1 544 (-1) [] /\ exists c, p_line line = Some ((false, [c]), []).
+Proof. vm_compute. split; [reflexivity|eexists; reflexivity]. Qed.
 (* a history of three steps on one backing array: {5,4,0}, overwritten by {4,0,5}, then {0,4,7} Sorted *)
 Example C10_check_example_history :
   let line := [10; 2; 3; 0; 0; 3; 0x4014000000000000; 0x4010000000000000; 0; 0; 1; 0x3fe0000000000000; 0; 0x4010000000000000; 0; 0x4010aaaaaaaaaaab; 1; 0; 0; 3; 0x4010000000000000; 0; 0x4014000000000000; 0; 2; 0x3fe0000000000000; 0; 0x4010000000000000; 0x3fd0000000000000; 0; 0x3fe5555555555558; 0; 0x4010aaaaaaaaaaab; 1; 1; 0; 3; 0; 0x4010000000000000; 0x401c000000000000; 0; 1; 0x3fe0000000000000; 0; 0x4010000000000000; 0; 0x4017555555555555; 1]%Z in
